@@ -341,6 +341,15 @@ func (c *Class) DeepCopyEnv(oldEnv, newEnv *GlobalEnvironment) *Class {
 	if c.parent != nil {
 		newClass.parent = DeepCopyEnv(c.parent, oldEnv, newEnv).(Namespace)
 	}
+
+	// the copy has to know the copies of its subclasses,
+	// calls on a class that has subclasses get dispatched dynamically
+	for child := range c.Children {
+		if newClass.Children == nil {
+			newClass.Children = ds.Set[*Class]{}
+		}
+		newClass.Children.Add(child.DeepCopyEnv(oldEnv, newEnv))
+	}
 	return newClass
 }
 
